@@ -44,6 +44,15 @@ chk("C14", "exploration", "DESIGN.md 5/C14",
     "The all-strings half of the codec statement is C19's (not claimed). Trusts verif/sim/rules for FEN clock definitions.",
     "deterministic simulation: seeded operation histories vs reference model, checked per operation")
 
+chk("C11", "exploration", "DESIGN.md 5/C11",
+    "Sessions of searches sharing one real table of tape-drawn size (2..65536 slots, with/without the min-depth write filter): iterative deepening, the game advancing between rounds, halted searches in between. Per search: root score equals the same search with no table; the PV's first move has the root value (no-table search of the child); every sampled exact store equals the no-table full-window value of the forked position at that depth; every hit returns the last store let through for that hash.",
+    "Differential baseline is the repo's own AlphaBeta without table (so a C03 defect is not blamed on the table). Sessions are excluded from the first search in which a repetition/fifty-move draw could arise in the tree, and at already-drawn roots.",
+    "deterministic simulation: seeded search sequences on shared state (cache-size knob forces eviction), differential oracle per operation")
+chk("C12", "fault_enumeration", "DESIGN.md 5/C12",
+    "Every cancellation poll of a search is a crash point: the poll count P of a search is measured, then the search is rerun with the context cancelled at exactly poll n for all n<=P (P<=250; otherwise first/last 80 + 90 sampled). Judged per n: ErrHalted and no result, all board getters unchanged, every table store after the halt verified as a true value, two follow-up searches on the same table equal to those on a twin table the halted search never touched. AlphaBeta (all configurations), Minimax, SARGON's check-extension leaf; fresh and pre-filled tables.",
+    "Cancellation is observed only through ctx.Done() (contextx.IsCancelled), so a counting context is an exact seam. Halt()/stop/timer paths that reach the search through goroutines are covered under C15/C16/C04 (S-A).",
+    "deterministic simulation: enumeration of every cancellation point (counting context), recording table, twin comparison")
+
 def main():
     props = [json.loads(l) for l in open('/verif/properties.jsonl')]
     ids = [p['id'] for p in props]
